@@ -28,17 +28,18 @@ theorem escapeByte_ascii {c : UInt8} (h : c.toNat < 128) : ∀ x ∈ escapeByte 
   · revert x; decide
   · simp only [List.mem_singleton] at hx; subst hx; exact h
 
-/-- a byte-wise text expansion that rewrites ASCII bytes into ASCII bytes and leaves every other byte alone -/
+/-- a byte-wise text expansion that rewrites ASCII bytes into ASCII bytes (possibly none, possibly depending on what
+follows the byte: `g c cs` is what `c` becomes in front of `cs`) and leaves every other byte alone -/
 structure Expansion where
   f : Bytes → Bytes
-  g : UInt8 → Bytes
+  g : UInt8 → Bytes → Bytes
   nil : f [] = []
-  cons : ∀ c cs, f (c :: cs) = g c ++ f cs
-  ascii : ∀ c, c.toNat < 128 → ∀ x ∈ g c, x.toNat < 128
-  high : ∀ c, 128 ≤ c.toNat → g c = [c]
+  cons : ∀ c cs, f (c :: cs) = g c cs ++ f cs
+  ascii : ∀ c cs, c.toNat < 128 → ∀ x ∈ g c cs, x.toNat < 128
+  high : ∀ c cs, 128 ≤ c.toNat → g c cs = [c]
 
 theorem Expansion.high_cons (E : Expansion) (b : UInt8) (r : Bytes) (h : 128 ≤ b.toNat) : E.f (b :: r) = b :: E.f r := by
-  rw [E.cons, E.high b h]; rfl
+  rw [E.cons, E.high b _ h]; rfl
 
 theorem Expansion.high_prefix (E : Expansion) : ∀ (mid r : Bytes), (∀ c ∈ mid, 128 ≤ c.toNat) →
     E.f (mid ++ r) = mid ++ E.f r
@@ -167,9 +168,9 @@ theorem decodeFuel_expand (E : Expansion) : ∀ (n : Nat) (b : Bytes), b.length 
       simp only [hd, Option.isSome_map] at hv
       rcases decodeOne_shape hd with ⟨hascii, hr⟩ | ⟨hhigh, mid, hrest, hmid, hsame⟩
       · subst hr
-        have hE := E.ascii b0 hascii
+        have hE := E.ascii b0 r hascii
         rw [E.cons] at hm ⊢
-        have hlen : (E.g b0).length ≤ m := by
+        have hlen : (E.g b0 r).length ≤ m := by
           simp only [List.length_append] at hm; omega
         rw [decodeFuel_ascii _ _ m hE hlen]
         exact decodeFuel_expand E k r (by simpa using hn) hv _
@@ -191,11 +192,11 @@ theorem utf8Valid_expand (E : Expansion) {b : Bytes} (h : utf8Valid b = true) : 
 
 def escapeExpansion : Expansion where
   f := escape
-  g := escapeByte
+  g := fun c _ => escapeByte c
   nil := rfl
   cons := fun _ _ => rfl
-  ascii := fun _ h => escapeByte_ascii h
-  high := fun _ h => escapeByte_of_not_special (special_small h)
+  ascii := fun _ _ h => escapeByte_ascii h
+  high := fun _ _ h => escapeByte_of_not_special (special_small h)
 
 theorem escapeTextByte_ascii {c : UInt8} (h : c.toNat < 128) : ∀ x ∈ escapeTextByte c, x.toNat < 128 := by
   by_cases hcr : c = 13
@@ -206,11 +207,11 @@ theorem escapeTextByte_ascii {c : UInt8} (h : c.toNat < 128) : ∀ x ∈ escapeT
 
 def escapeTextExpansion : Expansion where
   f := escapeText
-  g := escapeTextByte
+  g := fun c _ => escapeTextByte c
   nil := rfl
   cons := escapeText_cons
-  ascii := fun _ h => escapeTextByte_ascii h
-  high := fun c h => escapeTextByte_plain (special_small h) (by intro hc; subst hc; simp at h)
+  ascii := fun _ _ h => escapeTextByte_ascii h
+  high := fun c _ h => escapeTextByte_plain (special_small h) (by intro hc; subst hc; simp at h)
 
 /-- **escaping a valid UTF-8 string gives a valid UTF-8 string** (quick-xml's `escape`) -/
 theorem utf8Valid_escape {b : Bytes} (h : utf8Valid b = true) : utf8Valid (escape b) = true :=
